@@ -21,6 +21,11 @@ CLAIMED = {
         technique="TLA+ lock-step mutex/condvar model TransferSync checked by TLC (safety + liveness, must-violate configs per notifier); real-thread schedules recorded by hooks under the mutex and trace-validated by TLC",
         text="TLC exhausts all interleavings of one waiter (credit or reconnect) with up to three signalling threads over every order of ack, cancel, advance, resume and send in a lock-step model of the mutex/condvar protocol (NoLostWakeup, TimeoutOnlyAtDeadline, liveness WokenWhenReady / ExpiredReturns under weak fairness; removing any one notifier violates NoLostWakeup). The implementation is bound by validating recorded real-thread schedules (500 quick, 10^4 thorough; hook events emitted under the mutex) against the same waiter actions, with an end-of-schedule check that a waiter whose condition holds has returned, and deadline runs that must time out at, not before, the deadline.",
         note="Trusts TLC, the hook placement (events under the mutex, add-only) and the OS scheduler's variety for the real-thread runs; a waiter not back 10 s after all signallers finished while its condition holds is taken as a lost wake-up."),
+    "C18": dict(
+        category="model_checking", design_ref="DESIGN.md §5 C18",
+        technique="TLA+ spec PeerRegistry checked exhaustively by TLC (complete graph, 3 peers x 3 keys); every edge and all paths to depth 6/7 replayed on the real registry; sequential and concurrent histories checked for linearizability by TLC trace validation with silent linearization steps",
+        text="TLC computes the complete reachable graph of the registry model for 3 peers and 3 keys (302 states, every state within 7 steps) with IndexConsistent, LookupSound and the step properties RemoveOnlyOwn / AliasMoves. Every edge is replayed on the real PeerRegistry from a shortest path and every mutator/broadcast path up to depth 6 (quick) or 7 (thorough) is walked, comparing get, get_by, key_for, aliases_for, len, peers in every state and counting broadcast deliveries with capturing sinks. Long sequential and 2-4 thread concurrent histories are accepted only if TLC finds a linearization against the same sequential model.",
+        note="Trusts TLC and the harness' capturing sinks. The implementation has no state beyond the three maps, so graph closure at depth 7 covers the property's length-10 sequences. Concurrent interleavings are those the OS scheduler produced."),
 }
 
 NOT_YET = {}
